@@ -49,7 +49,9 @@ type syncInput struct {
 	Filter     string `json:"filter,omitempty"`
 	ReqLateUS  int    `json:"reqLateUs,omitempty"`
 	SlowDataUS int    `json:"slowDataUs,omitempty"`
+	ShortRead  int    `json:"shortRead,omitempty"` // the source hands out at most this many bytes per Read
 	Unpriv     bool   `json:"unpriv,omitempty"`
+	SumDelayUS int    `json:"sumDelayUs,omitempty"`
 }
 
 func runSyncInput(c *Ctx, caseNo int, in syncInput) ([]vt.Ev, *SyncResult, error) {
@@ -94,6 +96,13 @@ func runSyncInput(c *Ctx, caseNo int, in syncInput) ([]vt.Ev, *SyncResult, error
 		// slow source reads: every Open takes this long, so listing runs far ahead of content
 		o.SrcFS = &faultFS{FS: mustFS(src), SlowOpen: time.Duration(in.SlowDataUS) * time.Microsecond}
 	}
+	if in.ShortRead > 0 {
+		if ff, ok := o.SrcFS.(*faultFS); ok {
+			ff.ShortRead = in.ShortRead
+		} else {
+			o.SrcFS = &faultFS{FS: mustFS(src), ShortRead: in.ShortRead}
+		}
+	}
 	if in.ReqLateUS > 0 {
 		// only the receiver's REQ sends return late (after the request is visible to the sender)
 		d := time.Duration(in.ReqLateUS) * time.Microsecond
@@ -104,6 +113,7 @@ func runSyncInput(c *Ctx, caseNo int, in syncInput) ([]vt.Ev, *SyncResult, error
 		}
 	}
 	o.Unpriv = in.Unpriv
+	o.SumDelay = time.Duration(in.SumDelayUS) * time.Microsecond
 	o.Filter = filterByName(in.Filter)
 	o.Extra["filter"] = in.Filter
 	if in.Procs > 0 {
@@ -129,7 +139,7 @@ func Sync(c *Ctx) error {
 	if c.What == "filtered" {
 		return syncFiltered(c)
 	}
-	if c.What == "meta" {
+	if c.What == "meta" || c.What == "metasmall" {
 		return syncMeta(c)
 	}
 	if c.Replay != "" {
@@ -224,7 +234,29 @@ func Sync(c *Ctx) error {
 			differ = "none"
 		}
 		caps := []int{0, 1, 4, 32, 64}
-		inputs = append(inputs, syncInput{Src: src, Dst: dst, Mode: mode, Differ: differ,
+		short := 0
+		if c.Rand.Intn(5) == 0 {
+			short = []int{1, 10, 1000, 10000, 32767, 40000}[c.Rand.Intn(6)]
+			if short < 100 {
+				// keep one-byte reads affordable
+				for k := range src {
+					if src[k].Type == "file" && src[k].Size > 40000 && src[k].Group == 0 {
+						src[k].Size = 33000
+						src[k].Data = fileData(src[k].DSeed, 33000)
+						src[k].Content = model.ContentID(src[k].Data)
+					}
+				}
+			}
+		}
+		filter := ""
+		if c.Rand.Intn(6) == 0 && mode == "dirty" {
+			// a receiver Filter that rejects every non-directory named "rj": in the source (must not arrive), in the
+			// prior destination (must stay exactly as it is, stale or not), in both
+			filter = "rejectRJ"
+			src, dst = addRejected(c.Rand, src), addRejected(c.Rand, dst)
+			origin += "+rejectFilter"
+		}
+		inputs = append(inputs, syncInput{Src: src, Dst: dst, Mode: mode, Differ: differ, ShortRead: short, Filter: filter,
 			CapS: caps[c.Rand.Intn(len(caps))], CapR: caps[c.Rand.Intn(len(caps))], Origin: origin})
 	}
 	if err := runSyncInputs(c, inputs); err != nil {
@@ -292,6 +324,40 @@ func syncUnpriv(c *Ctx) error {
 		}
 	}
 	return nil
+}
+
+// addRejected returns a copy of t with up to three non-directories named "rj" added (root and random directories).
+func addRejected(r *rand.Rand, t model.Tree) model.Tree {
+	out := t.Clone()
+	dirs := []string{""}
+	for _, e := range t {
+		if e.Type == "dir" {
+			dirs = append(dirs, e.Path)
+		}
+	}
+	for k := 0; k < 1+r.Intn(3); k++ {
+		d := dirs[r.Intn(len(dirs))]
+		p := "rj"
+		if d != "" {
+			p = d + "/rj"
+		}
+		if out.Find(p) != nil {
+			continue
+		}
+		var e model.Entry
+		switch r.Intn(4) {
+		case 0:
+			e = model.Entry{Type: "symlink", Perm: 0777, Link: "a", Mtime: uniqueMtime()}
+		case 1:
+			e = model.Entry{Type: "fifo", Perm: 0644, Mtime: uniqueMtime()}
+		default:
+			e = newFile(r, genOpts{})
+		}
+		e.Path = p
+		out = append(out, e)
+	}
+	out.Sort()
+	return out
 }
 
 func runSyncInputs(c *Ctx, inputs []syncInput) error {
@@ -456,6 +522,15 @@ func syncHistories(c *Ctx) error {
 			hists = append(hists, syncInput{Origin: "history/chownDirToReceiver", CapS: 8, CapR: 8, Hist: []model.Tree{fixed, own, own},
 				Differs: []string{"metadata", "metadata", "metadata"}, HistOps: [][]string{{"initial"}, {"chown:dir-to-root"}, {"none"}}})
 		}
+		// a device node renumbered only in the high bits of its minor / major number
+		for _, nm := range [][2]int64{{5, 65541}, {5, 261}, {1<<19 + 1, 1}} {
+			devA := append(fixed.Clone(), model.Entry{Path: "zdev", Type: "blk", Perm: 0660, Devmajor: 8, Devminor: nm[0], Mtime: 1500000000000000777})
+			devB := append(fixed.Clone(), model.Entry{Path: "zdev", Type: "blk", Perm: 0660, Devmajor: 8, Devminor: nm[1], Mtime: 1500000000000000777})
+			devA.Sort()
+			devB.Sort()
+			hists = append(hists, syncInput{Origin: "history/deviceRenumbered", CapS: 8, CapR: 8, Hist: []model.Tree{devA, devB, devB},
+				Differs: []string{"metadata", "metadata", "metadata"}, HistOps: [][]string{{"initial"}, {"renumber"}, {"none"}}})
+		}
 		for i := range fixed {
 			for op := 0; op < numMutations; op++ {
 				next, ops := MutateAt(c.Rand, fixed, o, i, op)
@@ -472,7 +547,10 @@ func syncHistories(c *Ctx) error {
 		t0 := RandomTree(c.Rand, o)
 		h := syncInput{Origin: "history", CapS: []int{0, 2, 16, 64}[c.Rand.Intn(4)], CapR: []int{0, 2, 16, 64}[c.Rand.Intn(4)]}
 		if c.Rand.Intn(4) == 0 {
-			h.Filter = []string{"zeroOwner", "stripWrite"}[c.Rand.Intn(2)]
+			h.Filter = []string{"zeroOwner", "stripWrite", "rejectRJ"}[c.Rand.Intn(3)]
+			if h.Filter == "rejectRJ" {
+				t0 = addRejected(c.Rand, t0)
+			}
 		}
 		h.Hist = append(h.Hist, t0)
 		h.Differs = append(h.Differs, "metadata")
@@ -627,6 +705,9 @@ func syncSchedules(c *Ctx) error {
 			if si%6 == 5 {
 				in.DelayUS, in.ReqLateUS = 0, []int{1000, 3000, 6000}[c.Rand.Intn(3)]
 			}
+			if si%6 == 2 {
+				in.SumDelayUS = []int{500, 3000}[c.Rand.Intn(2)]
+			}
 			evs, res, err := runSyncInput(c, c.NextCase(), in)
 			if err != nil {
 				return err
@@ -665,6 +746,11 @@ func filterByName(name string) fsutil.FilterFunc {
 				st.Mode &^= 0222
 			}
 			return true
+		}
+	case "rejectRJ":
+		// rejects every non-directory named "rj" (for deletions the stat is empty)
+		return func(p string, st *types.Stat) bool {
+			return !(filepath.Base(p) == "rj" && !os.FileMode(st.Mode).IsDir())
 		}
 	}
 	return nil
@@ -882,6 +968,24 @@ func syncFiltered(c *Ctx) error {
 				}
 			}
 		}
+		// a hard-linked pair of named pipes, the first member early in the walk
+		if c.Rand.Intn(5) == 0 {
+			var dirs []string
+			for _, e := range t {
+				if e.Type == "dir" {
+					dirs = append(dirs, e.Path)
+				}
+			}
+			if len(dirs) > 0 && t.Find("0pipe") == nil {
+				d := dirs[c.Rand.Intn(len(dirs))]
+				if t.Find(d+"/pipe") == nil {
+					m := uniqueMtime()
+					t = append(t, model.Entry{Path: "0pipe", Type: "fifo", Perm: 0644, Mtime: m, Group: 700},
+						model.Entry{Path: d + "/pipe", Type: "fifo", Perm: 0644, Mtime: m, Group: 700})
+					t.Sort()
+				}
+			}
+		}
 		// a symlink or two for follow-paths
 		if c.Rand.Intn(3) == 0 && len(t) > 0 {
 			tg := t[c.Rand.Intn(len(t))].Path
@@ -913,6 +1017,25 @@ func syncFiltered(c *Ctx) error {
 				fol = []string{"lnk"}
 			}
 			in.Stack = append(in.Stack, [3][]string{inc, exc, fol})
+		}
+		if i%6 == 5 {
+			// exclude a directory, re-include something two levels below it through a wildcard in the middle:
+			// only the exception carries a wildcard, so the directory must not be pruned
+			var deep []string
+			for _, e := range t {
+				if strings.Count(e.Path, "/") >= 2 {
+					deep = append(deep, e.Path)
+				}
+			}
+			if len(deep) > 0 {
+				parts := strings.Split(deep[c.Rand.Intn(len(deep))], "/")
+				exc := []string{parts[0], "!" + parts[0] + "/*/" + strings.Join(parts[2:], "/")}
+				if c.Rand.Intn(2) == 0 {
+					exc = []string{parts[0], "!" + parts[0] + "/" + parts[1][:1] + "*/" + strings.Join(parts[2:], "/")}
+				}
+				in.Stack = [][3][]string{{nil, exc, nil}}
+				in.Origin = "filtered/excludeWithWildcardException"
+			}
 		}
 		in.SubDir = c.Rand.Intn(4) == 0
 		evs, res, err := runFiltered(c, c.NextCase(), in)
@@ -1100,6 +1223,9 @@ func syncMeta(c *Ctx) error {
 	if c.Thorough() {
 		n = 3000
 	}
+	if c.What == "metasmall" { // the boundary shapes and a short random part, for the checks of other properties
+		n = 40
+	}
 	c.Stats.Rule = "one case = one metadata-only transfer (source tree, selector table, prior destination); non-trivial = some regular file is selected and some is not; distinct by (tree, selector, destination)"
 	// boundary shapes: nothing announced at all, only the listing's own name announced, stale / symlinked listing in the
 	// destination (pointing at a file next to the destination, live or dangling), with and without merge mode
@@ -1114,6 +1240,12 @@ func syncMeta(c *Ctx) error {
 				var sel []string
 				if len(src) == 3 {
 					sel = []string{"f"}
+				}
+				if len(src) == 3 {
+					// a selected directory together with an entry below it, and a whole subtree
+					shapes = append(shapes,
+						metaInput{Src: src, Selected: []string{"d", "d/x"}, Merge: merge, Origin: "boundary/selectedDirAndChild"},
+						metaInput{Src: src, Selected: []string{"d", "d/x", "f"}, Merge: merge, Origin: "boundary/everythingSelected"})
 				}
 				shapes = append(shapes,
 					metaInput{Src: src, Selected: sel, Merge: merge, Origin: "boundary/emptyDst"},
@@ -1133,6 +1265,22 @@ func syncMeta(c *Ctx) error {
 			}
 			c.Stats.Case(vt.Opaque(in), true)
 			c.Stats.Count("origin:"+in.Origin, 1)
+		}
+	}
+	// a write fault on the listing itself: the receiving process may not write files larger than the limit
+	{
+		var big model.Tree
+		for k := 0; k < 400; k++ {
+			big = append(big, model.Entry{Path: fmt.Sprintf("e%04d-%s", k, strings.Repeat("y", 150)), Type: "dir", Perm: 0755, Mtime: uniqueMtime()})
+		}
+		for _, limit := range []int{4096, 40000} {
+			ev, err := runListingFault(c, c.NextCase(), big, limit)
+			if err != nil {
+				return err
+			}
+			c.Out.Emit(ev)
+			c.Stats.Case(fmt.Sprint("listingFault:", limit), true)
+			c.Stats.Count("origin:listingWriteFault", 1)
 		}
 	}
 	o := genOpts{MaxEntries: 25, Special: true, Xattrs: true, Links: true, BigFiles: false}
